@@ -36,13 +36,15 @@ ASSUMPTIONS = [
     "generator keeps the round trip defined: link keys <= key-table size after write_config; for versions "
     "> 4 the TC link key is the well-known key (its hashed form random or absent); children without a "
     "known NWK address are not expected back; frame counter expected back for versions >= 5, children "
-    "for versions >= 9",
+    "for versions >= 9; a link key the NCP refuses is not expected back, every other one is; the NCP keeps "
+    "its frame counters across leaveNetwork (they are only cleared by tokenFactoryReset)",
     "EmberInitialSecurityState byte layout: bitmask u16, preconfigured key 16, network key 16, sequence u8, "
     "TC EUI64 8; flag values 0x0100 / 0x0200 / 0x0040 / 0x0084",
 ]
 REACH = {t: ["versions_11", "nv3_present", "nv3_absent", "link_keys_written", "children_written", "hashed_present",
              "hashed_absent", "tc_address_unknown", "eui64_rewritten", "eui64_not_writable", "start_blank",
-             "start_existing", "frame_counter_checked", "children_checked", "security_state_decoded"]
+             "start_existing", "frame_counter_checked", "children_checked", "security_state_decoded",
+             "link_key_refused_midway", "zero_frame_counter_over_existing_network"]
          for t in ("quick", "thorough")}
 SHARD_TIMEOUT = {"quick": 900, "thorough": 3600}
 WELL_KNOWN = b"ZigBeeAlliance09"
@@ -50,7 +52,7 @@ UNKNOWN = b"\xff" * 8
 
 
 def shards(tier, seed):
-    n = 12 if tier == "quick" else 150
+    n = 16 if tier == "quick" else 150
     return [{"version": v, "nv3": nv3, "n": n, "seed": seed} for v in range(4, 15) for nv3 in (True, False)]
 
 
@@ -97,11 +99,19 @@ def run_shard(desc) -> Acc:
         K = lambda b: zt.KeyData.deserialize(bytes(b))[0]  # noqa: E731
         nwk_key = rnd.randbytes(16)
         link_keys = [(rnd.randbytes(16), bytes([0xD0 + i]) + rnd.randbytes(7)) for i in range(nkeys)]
+        refused = None
+        if nkeys >= 2 and rnd.random() < 0.4:
+            # the NCP refuses one link key that is not the last one (whatever its reason): the
+            # keys it does accept - before and after - must still make the round trip
+            refused = link_keys[rnd.randrange(nkeys - 1)][1]
+            net.refuse_partners[refused] = rnd.choice(["invalid_call", "fatal", "bad_argument"])
         children = [bytes([0xE0 + i]) + rnd.randbytes(7) for i in range(nchild)]
         child_addr = {c: rnd.randrange(1, 0xFFF0) for i, c in enumerate(children) if i % 3 != 2}
         w = dict(pan_id=rnd.randrange(1, 0xFFFE), ext=rnd.randbytes(8), channel=rnd.randrange(11, 27),
                  mask=rnd.choice([0x07FFF800, 1 << 15, (1 << 11) | (1 << 25)]), update_id=rnd.randrange(256),
-                 nwk_key=nwk_key, nwk_seq=rnd.randrange(256), nwk_fc=rnd.getrandbits(32), tc_fc=rnd.getrandbits(32))
+                 nwk_key=nwk_key, nwk_seq=rnd.randrange(256),
+                 nwk_fc=rnd.choice([0, 0, 1, 0xFFFFFFFF, rnd.getrandbits(32), rnd.getrandbits(32)]),
+                 tc_fc=rnd.choice([0, rnd.getrandbits(32)]))
         ni = zigpy.state.NetworkInfo(
             extended_pan_id=zt.ExtendedPanId.deserialize(w["ext"])[0], pan_id=zt.PanId(w["pan_id"]),
             nwk_update_id=zt.uint8_t(w["update_id"]), nwk_manager_id=zt.NWK(0x0000), channel=zt.uint8_t(w["channel"]),
@@ -113,7 +123,7 @@ def run_shard(desc) -> Acc:
             stack_specific={"ezsp": {"hashed_tclk": hashed}} if hashed else {}, source="rtmon")
         no = zigpy.state.NodeInfo(nwk=zt.NWK(0x0000), ieee=E(node_ieee), logical_type=zdo_t.LogicalType.Coordinator)
         case["written"] = {k: (v.hex() if isinstance(v, bytes) else v) for k, v in w.items()}
-        case["written"].update(link_keys=[(k.hex(), p.hex()) for k, p in link_keys], children=[c.hex() for c in children],
+        case["written"].update(link_keys=[(k.hex(), p.hex()) for k, p in link_keys], refused_partner=refused.hex() if refused else None, children=[c.hex() for c in children],
                                child_addr={c.hex(): a for c, a in child_addr.items()}, hashed=hashed, node_ieee=node_ieee.hex(),
                                tc_unknown=tc_unknown, tc_key=tc_key.hex(), ncp_eui64=cur_eui.hex())
         acc.case()
@@ -174,12 +184,16 @@ def run_shard(desc) -> Acc:
             if rh:
                 bad.append(("C14/roundtrip/hashed_tclk", "v4 read back a hashed link key"))
         got_keys = sorted((bytes(k.key.serialize()), bytes(k.partner_ieee.serialize())) for k in r.key_table)
-        cmp("link_key_table", [(a.hex(), b.hex()) for a, b in got_keys], [(a.hex(), b.hex()) for a, b in sorted(link_keys)])
+        cmp("link_key_table", [(a.hex(), b.hex()) for a, b in got_keys], [(a.hex(), b.hex()) for a, b in sorted(link_keys) if b != refused])
         if link_keys:
             acc.hit("link_keys_written")
+        if refused is not None and any(x[0] == "link_key_refused" for x in net.log):
+            acc.hit("link_key_refused_midway")
         if V >= 5:
             cmp("network_key_frame_counter", int(r.network_key.tx_counter), w["nwk_fc"])
             acc.hit("frame_counter_checked")
+            if w["nwk_fc"] == 0 and existing:
+                acc.hit("zero_frame_counter_over_existing_network")
         if V >= 9:
             want_children = sorted(c.hex() for c in child_addr)
             cmp("children", sorted(bytes(c.serialize()).hex() for c in r.children), want_children)
